@@ -79,6 +79,15 @@ def build_tree(rng, root: Path):
             q = rng.choice([x for x in natives if x != p])
             rel = os.path.relpath(q, p.parent)
             p.write_text(f"#include '{rel}'\n" + p.read_text())
+    # bystanders with the names a careless writer might use for scratch / backup copies of any target in this tree
+    # (other endings of the same stem, the prefixed name): unrelated files of the user, they must survive every operation
+    for d in dirs + [root / "x1" / "x2"]:
+        d.mkdir(parents=True, exist_ok=True)
+        for stem in [q.stem for q, _ in files if q.parent == d] + ["parsed", "brandnew", "deepnew", "new", "keepme", "casefile", "parsed.casefile"]:
+            for ending in (".tmp", "~"):
+                b = d / (stem + ending)
+                if not b.exists():
+                    b.write_text(f"bystander {stem}{ending}\n")
     return files
 
 
